@@ -145,7 +145,8 @@ def install():
 
     @_B('set')
     def _set(ex, it=()):
-        return set(ex.iterate(it))
+        from .core import check_hashable
+        return set(check_hashable(x) for x in ex.iterate(it))
 
     @_B('dict')
     def _dict(ex, it=(), **kw):
@@ -827,8 +828,10 @@ def _dict_method(d, name):
 
 
 def _set_method(s, name):
+    from .core import check_hashable
+
     def add(ex, x):
-        s.add(x)
+        s.add(check_hashable(x))
 
     def pop(ex):
         if not s:
@@ -851,7 +854,7 @@ def _set_method(s, name):
 
     def update(ex, *o):
         for x in o:
-            s.update(ex.iterate(x))
+            s.update(check_hashable(y) for y in ex.iterate(x))
 
     table = {'add': add, 'pop': pop, 'discard': discard, 'remove': remove, 'union': union, 'update': update}
     if name not in table:
